@@ -14,15 +14,32 @@ MANIFEST = {
             "prefix-free, arguments < 2^64), aad_injective (external_aad and Enc_structure determine alg, kid, piv), nonce_injective "
             "(minimal-length Partial IVs of any lengths) with distinct_piv_distinct_nonce for C15; libcoap's helpers (M) equal S: "
             "aad_eq_spec, nonce_eq_spec, option_value_eq_spec (encode and decode), split_eq_spec (protect split and decrypt merge), "
-            "info_eq_spec. On every run the real libcoap protects and unprotects "
+            "info_eq_spec. Sequences of exchanges on one context pair (state: token -> binding of the request it answers): "
+            "association_tracks_latest_request (for every sequence of requests with fresh or re-used tokens and of arriving datagrams "
+            "- genuine, late, duplicated, forged - the client's binding of a token is kid/Partial IV/nonce of the latest request sent "
+            "with it; induction over the step list), association_tracks_latest_request_impl (the same for libcoap's association list "
+            "with its update rule on re-use: aad, nonce and partial_iv all replaced), response_inputs_eq_spec (the nonce and the rebuilt "
+            "AAD libcoap's client verifies a response with are RFC 8613 8.4's for that binding), rejected_response_keeps_binding, "
+            "sequence_roundtrip (for every sequence and every token still bound: the server that verifies the latest request obtains "
+            "the same binding, and every response it protects for it, with or without its own Partial IV, is accepted and yields the "
+            "server's message; composes unprotect_protect_request/_response). On every run the real libcoap protects and unprotects "
             "generated exchanges (all methods/response codes, option mixes incl. Observe/Block/Proxy-Scheme, payload to 1 KiB, ids 0..7 "
             "bytes, ID context/salt present/absent, Partial IV 0..2^40-2) and its datagrams and recovered messages must equal S's byte for "
-            "byte (RFC 8613 Appendix C vectors included); every single-bit flip and truncation of sampled datagrams must be rejected "
+            "byte (RFC 8613 Appendix C vectors included); SEQUENCES of 2-6 requests on one client/server session pair (token re-use "
+            "after lost or held-back responses and after requests lost on the way, late responses to superseded requests, duplicates, "
+            "Observe registration with several notifications in and out of order, re-registration and cancellation under the same "
+            "token, responses with and without their own Partial IV) are compared step by step with S (datagrams, recovered messages, "
+            "rejections) and the client's association store after every step with M; every single-bit flip and truncation of sampled datagrams must be rejected "
             "where the RFC protects the bit (a test); helpers (option value, AAD, nonce, key derivation) are compared with M and S.",
     "note": "Not theorems: cryptographic strength / unforgeability ('every modification is rejected' is proved only as 'rejected iff "
             "the recomputed tag differs'). M covers libcoap's OSCORE helper functions (CBOR writers, AAD, nonce, option value, option "
-            "split/merge, info); that the whole of coap_oscore_new_pdu_encrypted / coap_oscore_decrypt_pdu equals S's protect / unprotect "
-            "is established by the differential runs, not by proof. The M = S theorems hold inside libcoap's limits (id <= 7 bytes, "
+            "split/merge, info) and the client's association store with its update rules; that the whole of "
+            "coap_oscore_new_pdu_encrypted / coap_oscore_decrypt_pdu equals S's protect / unprotect "
+            "is established by the differential runs, not by proof. Sequences stay inside what RFC 7252 5.3.1 / RFC 7641 allow a client "
+            "(the token of an active observation is re-used only to re-register or cancel); replay of a notification (same Partial IV "
+            "twice while the registration lasts) is C15's subject and is neither generated nor judged - libcoap's client accepts such a "
+            "duplicate (its response replay check is skipped while the recipient context is in its initial state, which a client's "
+            "never leaves): reported, not fixed here. The M = S theorems hold inside libcoap's limits (id <= 7 bytes, "
             "Partial IV <= 5 bytes, ID Context absent or 1..255 bytes, no Proxy-Uri, sorted options); the examples in Props/C14.lean show "
             "the limits are sharp. GnuTLS's AES-CCM/"
             "HMAC are an oracle on the implementation side, cross-checked against S's own primitives on every case; S's primitives are "
@@ -38,22 +55,35 @@ REQUIRED_THEOREMS = ["ccm_roundtrip", "tamper_detected_iff_tag_mismatch", "optio
                      "nonce_injective_same_length", "cbor_head_injective", "cbor_bstr_injective", "cbor_items_injective",
                      "aad_injective", "aad_injective_impl", "nonce_eq_spec", "nonce_injective", "pivBytes_minimal_encoding",
                      "distinct_piv_distinct_nonce", "distinct_pivs_distinct_nonces", "option_value_eq_spec", "split_eq_spec",
-                     "info_eq_spec", "unprotect_protect_request", "unprotect_protect_response", "unprotect_protect"]
+                     "info_eq_spec", "unprotect_protect_request", "unprotect_protect_response", "unprotect_protect",
+                     "association_tracks_latest_request", "association_tracks_latest_request_impl", "response_inputs_eq_spec",
+                     "rejected_response_keeps_binding", "sequence_roundtrip"]
 RULE = ("exchanges (one request and 0-3 responses/notifications per line) between a client and a server OSCORE context set up "
         "from master secret / salt / ID context / ids 0..7 bytes: all request methods and response codes, inner/outer option "
         "mixes incl. Observe, Block, Proxy-Scheme, Uri-Host/Port, Hop-Limit, No-Response, unknown options, payload 0..1 KiB, "
         "Partial IV 0..2^40-2 with the byte-length boundaries, mirrored and deliberately different contexts; the real libcoap "
         "protects and unprotects, the Lean RFC 8613 implementation S does the same from the same inputs and the datagrams and "
-        "recovered messages must be equal byte for byte; tamper lines: every single-bit flip and every truncation of a protected "
+        "recovered messages must be equal byte for byte; sequence lines (oseq): 2..6 requests over 1..3 tokens on ONE client and "
+        "one server session whose associations live for the whole line — per step a request (fresh token, or the token of an "
+        "earlier request whose response was lost / held back / never produced, delivered or lost on the way; plain, Observe "
+        "registration, re-registration, cancellation), a response or notification (with / without its own Partial IV; delivered, "
+        "lost, held back and delivered late — also after the token was re-bound —, or delivered twice), 8 scripted shapes first "
+        "(lost response then re-use, late response to the superseded request then the genuine one, request lost and retried, "
+        "notifications out of order, registration under the token of an unanswered request, re-registration, cancellation, three "
+        "retries), 6 % with a server Sender ID the client does not expect (every response must be rejected and every binding "
+        "stay); protected request and response bytes, what server and client recover or reject at every step against S, and the "
+        "client's association (partial_iv, nonce, aad, is_observe) after every request and delivery against M; tamper lines: every single-bit flip and every truncation of a protected "
         "datagram, delivered to freshly set-up endpoints (a TEST, labelled as such); helper lines: option value encode/decode, "
         "AAD, nonce, key derivation against M and S; crypto lines: SHA-256/HMAC/HKDF/AES-CCM of S against GnuTLS and the "
-        "published vectors; non-trivial = a line on which the recipient accepted at least one protected message, a tamper "
+        "published vectors; non-trivial = a line on which the recipient accepted at least one protected message (for a sequence: "
+        "the client accepted a response), a tamper "
         "line, or a helper/crypto line with a non-error result")
 TRUSTED_BASE = ["Lean 4.33 kernel; axioms allowed: propext, Classical.choice, Quot.sound (audited per theorem each run)",
                 "harness/oscore.c (contexts from configuration strings and zero-initialised sessions as in tests/test_oscore.c; "
-                "coap_send_internal / coap_send_ack_lkd wrapped), the generators and string comparison",
-                "M (CoapVerif/Model/Oscore.lean) is a hand transcription of libcoap's OSCORE helpers; checked against the compiled "
-                "code only on the cases run",
+                "coap_send_internal / coap_send_ack_lkd wrapped; sequences: both sessions live for the whole line, lost / late / "
+                "duplicated delivery is done by the harness), the generators incl. the SeqDomain walker, and string comparison",
+                "M (CoapVerif/Model/Oscore.lean, Model/OscoreAssoc.lean) is a hand transcription of libcoap's OSCORE helpers and of the "
+                "places that touch the client's association store; checked against the compiled code only on the cases run",
                 "GnuTLS (AES-CCM, HMAC-SHA-256) is an oracle on the implementation side, cross-checked against S's own primitives on "
                 "every case run; S's primitives are tested against FIPS/RFC vectors (tests, not proofs)"]
 ASSUMPTIONS = ["cryptographic strength (AEAD unforgeability, HKDF/SHA-256 properties) is not a theorem; what is proved is that "
@@ -70,7 +100,13 @@ SPEC_DECISIONS = ["D14.1 outer code POST/2.04, FETCH/2.05 with Observe", "D14.2 
                   "separate CON after an Empty ACK", "D14.8 lenient decompression where RFC 8613 §6.1 is silent", "D14.9 class E list = Figure 5 "
                   "+ Echo + Request-Tag", "D14.10 ID Context non-empty or absent, no Proxy-Uri", "D14.11 replay is C15's",
                   "D14.12 request must carry kid; kid in a response is not used", "D14.13 sequence numbers 0..2^40-2",
-                  "D14.14 request with Proxy-Scheme carries Hop-Limit; 4.01+Echo is handled inside the library"]
+                  "D14.14 request with Proxy-Scheme carries Hop-Limit; 4.01+Echo is handled inside the library",
+                  "D14.15 a response is verified with kid / Partial IV / nonce of the LATEST request sent with its token; re-using a "
+                  "token re-binds it; a response protected for a superseded request is verified against the new binding like any "
+                  "datagram and is not taken for the answer unless it verifies (its AAD carries the old request_piv: it does not)",
+                  "D14.16 a binding is consumed by the first response that verifies unless the request was an Observe registration "
+                  "(Observe 0); a response that does not verify changes nothing",
+                  "D14.17 replay of a notification is C15's subject, not judged here"]
 RUN_KW = {"timeout": 1200}
 
 # expected values of the published vectors (TESTS of S and of libcoap, keyed by input line)
@@ -251,6 +287,231 @@ def gen_osc_line(rng, wrong=False, weird=False):
     return line
 
 
+# ---- sequences of exchanges on one client / server pair (op `oseq`) ------------------------------------
+def gen_seq_request(rng, token, kind, weird=False):
+    """kind: plain | reg (Observe 0) | cancel (Observe 1)"""
+    rcode = rng.choice(REQ_CODES) if rng.random() < 0.9 else rng.randint(8, 31)
+    if kind != "plain" and rng.random() < 0.8:
+        rcode = rng.choice([1, 5])
+    opts = [o for o in gen_options(rng, True, False, weird) if o[0] != 6]
+    if kind != "plain":
+        opts = sorted(opts + [(6, b"" if kind == "reg" else b"\x01")], key=lambda o: o[0])
+    pl = gen_payload(rng) if rng.random() < 0.5 else b""
+    return G.encode("udp", rng.choice([0, 0, 1]), rcode, rng.randint(0, 0xFFFF), token, opts, pl[:300])
+
+
+def gen_seq_response(rng, token, notification, weird=False):
+    code = rng.choice(RESP_CODES) if rng.random() < 0.9 else rng.choice([64, 96, 127, 159, 191])
+    ropts = gen_options(rng, False, notification, weird)
+    if code == 129:
+        ropts = [o for o in ropts if o[0] != 252]     # D14.14
+    pl = gen_payload(rng)
+    return G.encode("udp", rng.choice([0, 1, 2, 2]), code, rng.randint(0, 0xFFFF), token, ropts, pl[:300])
+
+
+MAXSEQ = 2 ** 40 - 2
+
+
+class SeqDomain:
+    """What a sequence may contain (RFC 7252 §5.3.1 / RFC 7641 usage of tokens, D14.15 - D14.17) — the generator's walker and
+    the shrinker's filter.  Per token: cobs = the client's latest request with it registered an observation; budget = responses
+    the server may still protect for it (1 after a plain request or a cancellation, unlimited after a registration);
+    sticky = the server has seen an Observe request with it (libcoap's server keeps such an association)."""
+
+    def __init__(self, cseq):
+        self.cseq, self.st, self.held, self.flushed = cseq, {}, 0, set()
+
+    def tok(self, t):
+        return self.st.setdefault(t, {"cobs": False, "budget": 0, "sobs": False, "sticky": False, "used": False})
+
+    def request_ok(self, t, kind):
+        # the token of an active observation is re-used only to re-register or to cancel it
+        return kind in ("reg", "cancel") if self.tok(t)["cobs"] else kind in ("plain", "reg")
+
+    def request(self, t, kind, how):
+        x = self.tok(t)
+        if self.cseq > MAXSEQ:          # sequence numbers exhausted: the request is refused, nothing changes
+            return
+        self.cseq += 1
+        x["used"] = True
+        x["cobs"] = kind == "reg"
+        if how == "d":
+            x["sobs"] = kind == "reg"
+            x["budget"] = 99 if kind == "reg" else 1
+            x["sticky"] = x["sticky"] or kind != "plain"
+
+    def response_ok(self, t, how):
+        x = self.tok(t)
+        if x["budget"] > 0:
+            # a duplicate only where the first copy consumes the binding (replay of notifications: C15's, D14.17)
+            return how in ("d", "l", "h") or (how == "dd" and not x["cobs"])
+        return how == "d" and not x["sticky"]       # probe: the server holds no request for this token
+
+    def response(self, t, how):
+        x = self.tok(t)
+        if 0 < x["budget"] < 99:
+            x["budget"] -= 1
+        if how == "h" and self.held < 8:
+            self.held += 1
+
+    def flush_ok(self, i):
+        return 0 <= i < self.held and i not in self.flushed
+
+    def flush(self, i):
+        self.flushed.add(i)
+
+
+def parse_udp(hexs):
+    """(code, token, [(number, value)]) of a UDP CoAP datagram given in hex, None if malformed"""
+    try:
+        b = bytes.fromhex(hexs) if hexs != "-" else b""
+        tkl = b[0] & 15
+        if tkl > 8: return None
+        code, tok, p, num, opts = b[1], b[4:4 + tkl], 4 + tkl, 0, []
+        while p < len(b) and b[p] != 0xFF:
+            d, l = b[p] >> 4, b[p] & 15
+            p += 1
+            if d == 13: d = b[p] + 13; p += 1
+            elif d == 14: d = b[p] * 256 + b[p + 1] + 269; p += 2
+            if l == 13: l = b[p] + 13; p += 1
+            elif l == 14: l = b[p] * 256 + b[p + 1] + 269; p += 2
+            num += d
+            opts.append((num, b[p:p + l]))
+            p += l
+        return code, tok, opts
+    except (IndexError, ValueError):
+        return None
+
+
+def oseq_in_domain(w):
+    """is the oseq line (words) a sequence the generator could have produced?"""
+    try:
+        dom = SeqDomain(int(w[11]))
+        for g in oseq_groups(w[14:]):
+            if g[0] == "q" and len(g) == 3:
+                m = parse_udp(g[1])
+                obs = [v for n, v in m[2] if n == 6]
+                kind = "plain" if not obs else "reg" if int.from_bytes(obs[0], "big") == 0 else "cancel"
+                if not dom.request_ok(m[1], kind): return False
+                dom.request(m[1], kind, g[2])
+            elif g[0] == "r" and len(g) == 4:
+                m = parse_udp(g[1])
+                if not dom.response_ok(m[1], g[3]): return False
+                dom.response(m[1], g[3])
+            elif g[0] == "f" and len(g) == 2:
+                if not dom.flush_ok(int(g[1])): return False
+                dom.flush(int(g[1]))
+            else:
+                return False
+        return True
+    except (TypeError, ValueError, IndexError):
+        return False
+
+
+def gen_oseq_steps(rng, cseq, requests_only=False, weird=False):
+    """2..6 requests over 1..3 tokens with token re-use after lost / held responses, requests lost on the way, Observe
+    registrations with several notifications, re-registration and cancellation under the same token, late (held) and
+    duplicated responses — a random walk inside SeqDomain."""
+    ntok = rng.choice([1, 1, 2, 2, 3])
+    toks = []
+    while len(toks) < ntok:
+        t = G.rbytes(rng, rng.choice([0, 1, 2, 4, 4, 8, 8]))
+        if t not in toks:
+            toks.append(t)
+    dom = SeqDomain(cseq)
+    steps, nq = [], 0
+    target = rng.randint(2, 6)
+    guard = 0
+    while guard < 40 and len(steps) < 16:
+        guard += 1
+        can_r = [t for t in toks if dom.tok(t)["budget"] > 0]
+        can_f = [i for i in range(dom.held) if dom.flush_ok(i)]
+        if nq >= target and not ((can_r or can_f) and rng.random() < 0.75):
+            break
+        c = rng.random()
+        if nq < target and (c < 0.45 or not (can_r or can_f)):
+            used = [t for t in toks if dom.tok(t)["used"]]
+            t = rng.choice(used) if used and rng.random() < 0.75 else rng.choice(toks)
+            if dom.tok(t)["cobs"]:
+                kind = rng.choice(["reg", "cancel", "cancel"])
+            else:
+                kind = "reg" if rng.random() < 0.3 else "plain"
+            how = "d" if requests_only or rng.random() < 0.8 else "l"
+            steps.append("q %s %s" % (hx(gen_seq_request(rng, t, kind, weird)), how))
+            dom.request(t, kind, how)
+            nq += 1
+        elif requests_only:
+            continue
+        elif can_f and (c < 0.6 or not can_r):
+            i = rng.choice(can_f)
+            dom.flush(i)
+            steps.append("f %d" % i)
+        elif can_r:
+            t = rng.choice(can_r)
+            notif = dom.tok(t)["sobs"] and rng.random() < 0.85
+            how = rng.choice(["d", "d", "d", "d", "d", "l", "l", "h", "h", "h", "dd"])
+            if not dom.response_ok(t, how):
+                how = "d"
+            if how == "h" and dom.held >= 8:
+                how = "l"
+            steps.append("r %s %d %s" % (hx(gen_seq_response(rng, t, notif, weird)), 1 if rng.random() < 0.3 else 0, how))
+            dom.response(t, how)
+        if rng.random() < 0.04 and not requests_only:
+            cand = [t for t in toks if dom.tok(t)["budget"] == 0 and dom.response_ok(t, "d")]
+            if cand:
+                t = rng.choice(cand)
+                steps.append("r %s %d d" % (hx(gen_seq_response(rng, t, False)), rng.choice([0, 1])))
+                dom.response(t, "d")
+    return steps
+
+
+def oseq_scenario(rng, k):
+    """the scripted shapes (the generator's walker finds them too; these make sure every run has them)"""
+    t = G.rbytes(rng, rng.choice([1, 2, 4, 8]))
+    q = lambda kind="plain", how="d": "q %s %s" % (hx(gen_seq_request(rng, t, kind)), how)
+    r = lambda how="d", notif=False, piv=None: "r %s %d %s" % (hx(gen_seq_response(rng, t, notif)),
+                                                                rng.choice([0, 1]) if piv is None else piv, how)
+    if k == 0:      # response lost, token re-used, genuine response without / with its own Partial IV
+        return [q(), r("l"), q(), r("d", piv=rng.choice([0, 1]))]
+    if k == 1:      # late response to the superseded request, then the genuine one
+        return [q(), r("h"), q(), "f 0", r("d")]
+    if k == 2:      # request lost on the way, retried with the same token
+        return [q(how="l"), q(), r("dd")]
+    if k == 3:      # registration, notifications in and out of order
+        return [q("reg"), r("d", True), r("h", True), r("d", True), "f 0", r("d", True)]
+    if k == 4:      # unanswered plain request, registration under the same token, notifications
+        return [q(how=rng.choice(["d", "l"])), q("reg"), r("d", True), r("d", True), r("d", True)]
+    if k == 5:      # re-registration: notifications are bound to the new request, a held one of the old is not accepted
+        return [q("reg"), r("d", True), r("h", True), q("reg"), "f 0", r("d", True), r("d", True)]
+    if k == 6:      # cancellation under the token of the observation
+        return [q("reg"), r("d", True), q("cancel"), r("d", False)]
+    return [q(), r("l"), q(), r("l"), q(), r("h"), q(), "f 0", r("d", piv=1)]     # three retries
+
+
+def gen_oseq_line(rng, wrong=None, weird=False, scenario=None):
+    while True:
+        secret, salt, idctx, cid, sid = gen_params(rng)
+        if idctx is None or len(idctx) <= 34:
+            break
+    cl = (secret, salt, idctx, cid, sid)
+    sv = [secret, salt, idctx, sid, cid]
+    if wrong == "sid":          # the server protects its responses with another Sender ID: the client must reject all of them
+        sv[3] = sid + b"\x00" if len(sid) < 7 else sid[:-1]
+        if sv[3] == sv[4]:
+            return gen_oseq_line(rng, wrong, weird, scenario)
+    elif wrong:                 # nothing the client sends is accepted: requests only (what a rejected request leaves is C15's)
+        sv[0] = bytes([secret[0] ^ 1]) + secret[1:]
+    requests_only = bool(wrong) and wrong != "sid"
+    cseq = gen_piv(rng)
+    if scenario is not None and not requests_only:
+        cseq = min(cseq, MAXSEQ - 8)
+        steps = oseq_scenario(rng, scenario)
+    else:
+        steps = gen_oseq_steps(rng, cseq, requests_only, weird)
+    newmid = -1 if rng.random() < 0.3 else rng.randint(0, 0xFFFF)
+    return "oseq %s %s %d %d %d %s" % (fmt_params(*cl), fmt_params(*sv), cseq, gen_piv(rng), newmid, " ".join(steps))
+
+
 def gen_tamper_line(rng, small=True):
     secret, salt, idctx, cid, sid = gen_params(rng)
     token = G.rbytes(rng, rng.choice([0, 1, 2, 4]))
@@ -260,8 +521,10 @@ def gen_tamper_line(rng, small=True):
     req = G.encode("udp", rng.choice([0, 1]), rng.choice(REQ_CODES), rng.randint(0, 0xFFFF), token, opts,
                    G.rbytes(rng, rng.choice([0, 1, 5, 17])))
     ropts = [(n, v[:6]) for n, v in gen_options(rng, False, observe and rng.random() < 0.7)][:3]
-    resp = G.encode("udp", rng.choice([0, 1, 2]), rng.choice(RESP_CODES), rng.randint(0, 0xFFFF), token, ropts,
-                    G.rbytes(rng, rng.choice([0, 1, 5, 17])))
+    rtyp, rcode = rng.choice([0, 1, 2]), rng.choice(RESP_CODES)
+    if rcode == 129:        # 4.01 + Echo is consumed by the library (D14.14), as in gen_exchange
+        ropts = [o for o in ropts if o[0] != 252]
+    resp = G.encode("udp", rtyp, rcode, rng.randint(0, 0xFFFF), token, ropts, G.rbytes(rng, rng.choice([0, 1, 5, 17])))
     which = rng.choice(["q", "r"])
     return "tamper %s %s %d %d %d %s %s %d %s 0 100000 0 100000" % (
         fmt_params(secret, salt, idctx, cid, sid), fmt_params(secret, salt, idctx, sid, cid), gen_piv(rng), gen_piv(rng),
@@ -327,6 +590,10 @@ def generate(ctx, escalate=False):
     for i in range(2400 * k):
         c = rng.random()
         out.append(gen_osc_line(rng, wrong=c < 0.1, weird=0.1 <= c < 0.2))
+    for i in range(1200 * k):
+        c = rng.random()
+        out.append(gen_oseq_line(rng, wrong="sid" if c < 0.06 else "secret" if c < 0.08 else None, weird=0.1 <= c < 0.2,
+                                 scenario=i % 8 if i < 64 else None))
     for i in range(40 * k):
         out.append(gen_tamper_line(rng))
     out += gen_helper_lines(rng, 3000 * k)
@@ -409,6 +676,17 @@ def judge(ctx, c):
                     if e not in (i or "") + " ":
                         return ("spec", "RFC 8613 Appendix C vector not reproduced: expected %s in %s" % (e.strip(), short(i)))
         return None
+    if op == "oseq":
+        # impl: `seq <transcript> | <trace of the client's associations>`; driver: M = the trace from libcoap's update rules
+        # (Model/OscoreAssoc.lean), S = the transcript from RFC 8613 applied message by message (Spec/OscoreSeq.lean)
+        it, _, itr = (i or "").partition(" |")
+        if it != s:
+            return ("spec", "sequence step %s: implementation %s but the RFC 8613 reference (response verified with the "
+                            "binding of the latest request of its token) gives %s" % (diff_step(it, s), first_diff(it, s), first_diff(s, it)))
+        if itr.strip() != (m or "").strip():
+            return ("tie", "client association store: implementation %s but model M says %s" % (
+                first_diff(itr.strip(), (m or "").strip()), first_diff((m or "").strip(), itr.strip())))
+        return None
     if op in ("sha256", "hmac", "hkdf", "ccm"):
         if c["input"] in KAT and m != KAT[c["input"]]:
             return ("tie", "S's primitive fails its known-answer test: %s, expected %s" % (short(m), KAT[c["input"]]))
@@ -433,6 +711,18 @@ def judge(ctx, c):
     return None
 
 
+def diff_step(a, b):
+    """number (from 1) of the first `key=value` field of transcript a that differs from b"""
+    fa, fb = (a or "").split(" "), (b or "").split(" ")
+    n = 0
+    for k, x in enumerate(fa):
+        if "=" in x and x.split("=")[0] in ("req", "ureq", "resp", "uresp", "uresp2", "late"):
+            n += 1
+        if k >= len(fb) or x != fb[k]:
+            return "%d (%s)" % (n, x.split("=")[0])
+    return "%d (end)" % n
+
+
 def first_diff(a, b):
     """the first differing field of two `k=v k=v …` lines"""
     a, b = a or "", b or ""
@@ -449,6 +739,8 @@ def nontrivial(c):
     op = c["input"].split()[0]
     if op == "osc":
         return "ureq=ok" in i
+    if op == "oseq":
+        return "uresp=ok" in i or "late=ok" in i
     if op == "tamper":
         return i.startswith("n=")
     return not i.startswith(("rej", "bad", "0 -", "fail", "crash"))
@@ -463,12 +755,33 @@ def classify(c):
         return k + (":observe" if ",6:" in i or "opts=6:" in i else "") + (":rejected" if "=rej" in i else "")
     if op == "tamper":
         return "tamper:" + w[17]
+    if op == "oseq":
+        st = oseq_groups(w[14:])
+        qs = [g for g in st if g[0] == "q"]
+        toks = [g[1][8:8 + 2 * (int(g[1][1], 16))] if len(g) > 1 else "" for g in qs]
+        k = "oseq:" + ("reuse" if len(set(toks)) < len(toks) else "fresh")
+        if any(g[0] == "f" for g in st): k += ":late"
+        if any(g[0] == "r" and g[3] == "dd" for g in st): k += ":dup"
+        return k + (":observe" if ",6:" in i or "opts=6:" in i else "") + (":rejected" if "=rej" in i else "")
     return op
+
+
+def oseq_groups(w):
+    """the step words of an oseq line as groups: ['q', req, how] / ['r', resp, piv, how] / ['f', idx]"""
+    out, k = [], 0
+    size = {"q": 3, "r": 4, "f": 2}
+    while k < len(w):
+        n = size.get(w[k], 1)
+        out.append(w[k:k + n])
+        k += n
+    return out
 
 
 def search(ctx, tie_breaks, proof):
     rng = ctx.rng
     out = []
+    for i in range(3000):
+        out.append(gen_oseq_line(rng, wrong="sid" if rng.random() < 0.05 else None, weird=rng.random() < 0.2))
     for i in range(3000):
         out.append(gen_osc_line(rng, wrong=rng.random() < 0.1, weird=rng.random() < 0.2))
     for i in range(60):
@@ -495,6 +808,32 @@ def shrink(ctx, case):
                     cc["why"] = v[1]
                     return cc
         return case
+    if w[0] == "oseq":
+        # drop steps from the end, then single steps (a dropped `h` step renumbers the held datagrams: the candidate simply
+        # has to fail again to be kept)
+        def fails(groups):
+            if not oseq_in_domain(w[:14] + [x for g in groups for x in g]):
+                return None
+            cc = diff_side(ctx, me, [" ".join(w[:14] + [x for g in groups for x in g])])[0]
+            v = judge(ctx, cc)
+            if v and v[0] == "spec":
+                cc["why"] = v[1]
+                return cc
+            return None
+        groups, best = oseq_groups(w[14:]), case
+        while len(groups) > 1:
+            cc = fails(groups[:-1])
+            if not cc:
+                break
+            groups, best = groups[:-1], cc
+        k = 0
+        while k < len(groups) and len(groups) > 1:
+            cc = fails(groups[:k] + groups[k + 1:])
+            if cc:
+                groups, best = groups[:k] + groups[k + 1:], cc
+            else:
+                k += 1
+        return best
     if w[0] == "osc":
         best = case
         while len(w) > 15:
